@@ -373,6 +373,30 @@ theorem swap_bounds_rounding_monitor {env : Env} {s s' : State} {m : MsgSwap} {r
       simp only [if_true, Bool.and_eq_true, beq_iff_eq, decide_eq_true_eq]
       exact ⟨⟨e1, e2⟩, ⟨e4, e5⟩, e3⟩
 
+open Spec in
+/-- the executable predicate `remove_bounds` the driver evaluates on implementation transitions holds
+of every successful removal of the model (provider not a pool's escrow) -/
+theorem remove_bounds_monitor {env : Env} {s s' : State} {m : MsgRemove} {r : Resp} (hW : WF env s)
+    (hS : SignerOK s (.remove m)) (h : remove env s m = .ok (s', r)) :
+    c08_removeBounds { env := env, pre := s, op := .remove m, ok := true, resp := r, post := s' } = true := by
+  obtain ⟨pool, a, b, hpool, hbank, hresp, hminS, hminT, hr⟩ := remove_bounds h
+  obtain ⟨hmem, _⟩ := mem_of_poolByLpt hpool
+  have hse : m.sender.bytes ≠ pool.escrow := hS m.sender.bytes rfl pool hmem
+  have hd : s.std ≠ pool.counter := fun e => hW.counterNeStd pool hmem e.symm
+  have hls : s.std ≠ pool.lpt := fun e => ne_of_prefix (hW.lptPrefix pool hmem) hW.stdNotLpt e.symm
+  have hlt : pool.counter ≠ pool.lpt := fun e => ne_of_prefix (hW.lptPrefix pool hmem) (hW.counterNotLpt pool hmem) e.symm
+  obtain ⟨x1, x2, x3⟩ := removeEffs_exact hbank hse hd hls hlt
+  simp only at hr
+  obtain ⟨_, _, r1, r2, r3, r4⟩ := hr
+  subst hresp
+  have ha : loss { env := env, pre := s, op := Op.remove m, ok := true, resp := .remove (newCoins2 (s.std, a) (pool.counter, b)), post := s' } pool.escrow s.std = a := by
+    simp only [loss]; omega
+  have hb : loss { env := env, pre := s, op := Op.remove m, ok := true, resp := .remove (newCoins2 (s.std, a) (pool.counter, b)), post := s' } pool.escrow pool.counter = b := by
+    simp only [loss]; omega
+  simp only [c08_removeBounds, Bool.not_true, Bool.false_or, hpool, reserves, ha, hb]
+  simp only [Bool.and_eq_true, beq_iff_eq, decide_eq_true_eq]
+  exact ⟨⟨⟨⟨⟨⟨⟨x3, hminS⟩, hminT⟩, r1⟩, r2⟩, r3⟩, r4⟩, trivial⟩
+
 example : (step exEnv exState exSell).toBool = true := by decide +kernel
 example : (step exEnv exState exBuy).toBool = true := by decide +kernel
 example : (step exEnv exState exAdd).toBool = true := by decide +kernel
